@@ -1174,6 +1174,20 @@ class AttrParser(BaseParser):
             type: AnyFloat | IntegerType | IndexType | ComplexType,
         ):
             if isinstance(type, AnyFloat):
+                if (
+                    isinstance(self.value, int)
+                    and not isinstance(self.value, bool)
+                    and self.span.text[:2] in ("0x", "0X")
+                ):
+                    # A hexadecimal literal is the bit pattern of the float value.
+                    try:
+                        raw = self.value.to_bytes(type.compile_time_size, "little")
+                    except OverflowError:
+                        parser.raise_error(
+                            f"hexadecimal float literal out of range for {type}",
+                            at_position=self.span,
+                        )
+                    return next(iter(type.iter_unpack(raw)))
                 return self.to_float(parser)
 
             match type:
